@@ -3,6 +3,7 @@
 package c13
 
 import (
+	"bytes"
 	"encoding/json"
 	"fmt"
 	"os"
@@ -118,7 +119,26 @@ func tamper(kind string, secret *[]byte, vvec *[][]byte, shareFor uint64, otherI
 	}
 }
 
+// honest reports whether (secret, vector) is what an honest participant could have sent to id:
+// exactly t vector entries and a share that is the vector evaluated at id.
+func honest(secret []byte, vvec [][]byte, id uint64, t int) bool {
+	if len(vvec) != t {
+		return false
+	}
+	var sk bls.SecretKey
+	if err := sk.Deserialize(secret); err != nil {
+		return false
+	}
+	want, err := vkit.EvalVVec(vvec, id)
+	if err != nil {
+		return false
+	}
+
+	return bytes.Equal(sk.GetPublicKey().Serialize(), want)
+}
+
 type outcome struct {
+	cancelled int
 	delivered []string
 	success   bool
 	message   string
@@ -136,12 +156,6 @@ func run(c *Case) (*outcome, *vkit.Violation, error) {
 	pendingReplay := map[*vkit.Msg]string{}
 	replayAccepted := ""
 	errorReply := map[*vkit.Msg]bool{}
-	onlyDuplicates := true
-	for _, f := range c.Faults {
-		if f.Kind != "duplicate" {
-			onlyDuplicates = false
-		}
-	}
 	otherOf := func(not ...uint64) uint64 {
 		for _, id := range c.IDs {
 			skip := false
@@ -160,6 +174,22 @@ func run(c *Case) (*outcome, *vkit.Violation, error) {
 	cl.Net.Before = func(m *vkit.Msg) error {
 		idx := counts[m.Kind]
 		counts[m.Kind]++
+		tampered := false
+		var tamperLog []string
+		defer func() {
+			// Several faults on one message can cancel each other (extend the vector, then truncate
+			// it): what counts is whether the contribution that goes out is still honest.
+			if !tampered {
+				return
+			}
+			r := m.Req.(*pb.ContributeRequest)
+			if honest(r.GetSecret(), r.GetVerificationVector(), m.To, int(c.T)) {
+				o.cancelled++
+
+				return
+			}
+			o.delivered = append(o.delivered, tamperLog...)
+		}()
 		for _, f := range c.Faults {
 			if f.Msg != m.Kind || f.Index != idx {
 				continue
@@ -173,10 +203,7 @@ func run(c *Case) (*outcome, *vkit.Violation, error) {
 			case f.Kind == "duplicate":
 				// deliver an identical copy first; the original follows
 				dup := &vkit.Msg{Kind: m.Kind, From: m.From, To: m.To, Account: m.Account, Req: m.Req}
-				saved := cl.Net.Before
-				cl.Net.Before = nil
-				_, _ = cl.Net.Deliver(dup)
-				cl.Net.Before = saved
+				_, _ = cl.Net.DeliverRaw(dup)
 				o.delivered = append(o.delivered, fmt.Sprintf("%s[%d] %s", m.Kind, idx, f.Kind))
 			case m.Kind == "contribute" && strings.HasPrefix(f.Kind, "replay-"):
 				pendingReplay[m] = strings.TrimPrefix(f.Kind, "replay-")
@@ -185,7 +212,8 @@ func run(c *Case) (*outcome, *vkit.Violation, error) {
 			case m.Kind == "contribute":
 				r := m.Req.(*pb.ContributeRequest)
 				tamper(f.Kind, &r.Secret, &r.VerificationVector, m.To, otherOf(m.To), int(c.T))
-				o.delivered = append(o.delivered, fmt.Sprintf("%s[%d] %s", m.Kind, idx, f.Kind))
+				tampered = true
+				tamperLog = append(tamperLog, fmt.Sprintf("%s[%d] %s", m.Kind, idx, f.Kind))
 			}
 		}
 
@@ -197,10 +225,7 @@ func run(c *Case) (*outcome, *vkit.Violation, error) {
 			orig := m.Req.(*pb.ContributeRequest)
 			r := &pb.ContributeRequest{Account: orig.GetAccount(), Secret: orig.GetSecret(), VerificationVector: orig.GetVerificationVector()}
 			tamper(kind, &r.Secret, &r.VerificationVector, m.To, otherOf(m.To), int(c.T))
-			saved, savedAfter := cl.Net.Before, cl.Net.After
-			cl.Net.Before, cl.Net.After = nil, nil
-			_, err := cl.Net.Deliver(&vkit.Msg{Kind: "contribute", From: m.From, To: m.To, Account: m.Account, Req: r})
-			cl.Net.Before, cl.Net.After = saved, savedAfter
+			_, err := cl.Net.DeliverRaw(&vkit.Msg{Kind: "contribute", From: m.From, To: m.To, Account: m.Account, Req: r})
 			o.delivered = append(o.delivered, fmt.Sprintf("contribute-replay replay-%s", kind))
 			if err == nil {
 				replayAccepted = fmt.Sprintf("instance %d accepted a second contribution from %d whose share does not match its vector (replay-%s)", m.To, m.From, kind)
@@ -239,9 +264,14 @@ func run(c *Case) (*outcome, *vkit.Violation, error) {
 			holders = append(holders, fmt.Sprintf("%d(store=%v,fetcher=%v)", n.ID, s, f))
 		}
 	}
-	onlyReplays := len(c.Faults) > 0
-	for _, f := range c.Faults {
-		if !strings.HasPrefix(f.Kind, "replay-") && f.Kind != "duplicate" {
+	// what decides is what was actually delivered (planned faults may never be reached, and
+	// several on one message may cancel out)
+	onlyReplays, onlyDuplicates := true, true
+	for _, d := range o.delivered {
+		if !strings.HasSuffix(d, " duplicate") {
+			onlyDuplicates = false
+		}
+		if !strings.HasSuffix(d, " duplicate") && !strings.HasPrefix(d, "contribute-replay ") {
 			onlyReplays = false
 		}
 	}
